@@ -161,3 +161,33 @@ def atoms_at(g, node, norm_fn=None):
 
 def has_atom(atoms, text, pol):
     return any(t == text and p == pol for t, p, _ in atoms)
+
+
+def local_aliases(fnode):
+    """{name: attribute-chain text} for locals assigned exactly once (plain `name = a.b.c`) in the function:
+    pure renamings of a global table or attribute, which rules must look through."""
+    counts = {}
+    for n in walk_no_nested(fnode):
+        for t in stmt_targets(n) if isinstance(n, (ast.Assign, ast.AugAssign, ast.AnnAssign, ast.For, ast.Delete)) else []:
+            if isinstance(t, ast.Name):
+                counts.setdefault(t.id, []).append(n)
+    out = {}
+    for name, sts in counts.items():
+        if len(sts) == 1 and isinstance(sts[0], ast.Assign) and len(sts[0].targets) == 1 and attr_chain(sts[0].value) is not None \
+                and isinstance(sts[0].value, ast.Attribute):
+            out[name] = unparse(sts[0].value)
+    return out
+
+
+def xtext(node, aliases):
+    """source text of an expression with local aliases (see local_aliases) expanded."""
+    if not aliases:
+        return unparse(node)
+
+    class T(ast.NodeTransformer):
+        def visit_Name(self, n):
+            if isinstance(n.ctx, ast.Load) and n.id in aliases:
+                return ast.parse(aliases[n.id], mode="eval").body
+            return n
+    import copy
+    return unparse(T().visit(copy.deepcopy(node)))
